@@ -141,7 +141,10 @@ func (j *Joe) Subscribe(ctx context.Context, sub Subscription) error {
 		return err
 	case j.unsubscription <- done:
 		verifAt("sub.s3.sent", sub.Client, nil)
-		return nil
+		// Joe closes done when he removes the subscriber; an error he reported
+		// before receiving the unsubscription is still delivered here.
+		err := <-done
+		return err
 	}
 }
 
@@ -210,6 +213,12 @@ func (j *Joe) Shutdown(ctx context.Context) (err error) {
 
 func (j *Joe) removeSubscriber(sub subscriber) {
 	verifAt("loop.remove", sub, nil)
+	_, ok := j.subscribers[sub]
+	if !ok {
+		// Already removed (and closed) because it failed; this is its late unsubscription.
+		return
+	}
+
 	delete(j.subscribers, sub)
 	close(sub)
 }
